@@ -39,7 +39,7 @@ def floors(tier):
     return {"compared": 30000, "accepted": 8000, "rejected": 8000, "mutated_depth2plus": 1000,
             "metaschemas_self_accepted": 4, "keyword_shape_cells": 3000, "calibration_cases": 2000,
             "dialects_registered": 4, "checked_after_dialect_registration": 400,
-            "respelled_duplicates_in_unique_arrays": 500, "format_only_objections": 50}
+            "respelled_duplicates_in_unique_arrays": 500, "format_only_objections": 50, "checked_while_a_listing_is_pending": 1000}
 
 
 def load_metaschemas():
@@ -84,6 +84,30 @@ def compare(ctx, O, d, cand, tag=""):
     if got != strict:
         ctx.violation("gate", case, "check_schema %s, metaschema (model) says %s %s" % (
             "accepts" if got else "rejects", "valid" if strict else "invalid", tag))
+        return
+    # the verdict is the same while a caller still holds an unfinished listing of this candidate's metaschema violations
+    # (e.g. an error report being paged through): a suspended iterator has no say in what check_schema decides
+    if not strict and (ctx.counters.get("compared", 0) % 6 == 0 or tag == "(replay)"):
+        pending = []
+        try:
+            for _ in range(2):
+                it = cls(cls.META_SCHEMA).iter_errors(cand)
+                if next(it, None) is not None:
+                    pending.append(it)
+            ctx.count("checked_while_a_listing_is_pending")
+            for c2 in (cand, json.loads(json.dumps(cand))):
+                try:
+                    cls.check_schema(c2)
+                    ctx.violation("gate", dict(case, pending_listing=True), "check_schema accepts the candidate while an unfinished iter_errors "
+                                  "listing of the same candidate is held; alone it rejects it %s" % tag)
+                    break
+                except X.SchemaError:
+                    pass
+        except (TypeError, ValueError, OverflowError):
+            pass            # not JSON-serialisable (huge floats, ...): the copy is skipped
+        finally:
+            for it in pending:
+                it.close()
 
 
 def confusable_variants(x):
